@@ -93,6 +93,244 @@ def run(ctx):
     # header and the rows agree on the column order (shared with C03e/C13)
     from .c03 import header_data_agreement
     header_data_agreement(ctx, "C06f-header-matches-rows")
+    _sqlite_binding(ctx)
+    _pep_direction(ctx)
+    _no_stray_index_column(ctx)
+
+
+def _no_stray_index_column(ctx):
+    """A frame that is written to a result or level file has exactly the
+    columns its header names: reset_index() without drop=True turns the old
+    index into an extra leading column, and every value of the rows then
+    sits one column to the right of its name."""
+    from ..core import walk_own
+    from ..defuse import walk_term
+    prog = ctx.prog
+    n = 0
+    for q in sorted(prog.funcs):
+        fn = prog.funcs[q]
+        if isinstance(fn.node, ast.Lambda) or fn.module.name not in (
+                "mokapot.confidence", "mokapot.confidence_writer",
+                "mokapot.brew_rollup", "mokapot.picked_protein"):
+            continue
+        T = None
+        for node in walk_own(fn.node):
+            if not (isinstance(node, ast.Call) and isinstance(
+                    node.func, ast.Attribute) and node.func.attr in (
+                        "to_csv", "to_parquet", "write", "append_data")):
+                continue
+            T = T or Terms(DefUse(prog, fn))
+            t = T.of(node)
+            if t[0] != "mcall":
+                continue
+            frame = t[1] if t[2] in ("to_csv", "to_parquet") else (
+                t[3][0] if t[3] else None)
+            if frame is None:
+                continue
+            n += 1
+            bad = []
+            for x in walk_term(frame):
+                if isinstance(x, tuple) and x and x[0] in ("mcall", "mut") \
+                        and x[2] == "reset_index":
+                    kw = dict(x[4]) if x[0] == "mcall" else {}
+                    args = x[3]
+                    drop = kw.get("drop", args[1] if len(args) > 1 else
+                                  ("const", False))
+                    if drop != ("const", True):
+                        bad.append(show(x, 60))
+            ctx.check(not bad, "C06f-no-stray-index-column", fn,
+                      f"the frame written at line {node.lineno} carries no "
+                      "index column",
+                      f"the frame written at line {node.lineno} went through "
+                      f"reset_index() without drop=True ({bad[:1]}): its "
+                      "rows have one field more than the header, so the "
+                      "PEP (and every other value) appears under a "
+                      "neighbouring column's name", node=node)
+    ctx.floor("C06f-written-frames", n, 3)
+
+
+def _pep_direction(ctx):
+    """The PEP estimators assume that a higher score is better.  In
+    LinearConfidence._assign_confidence the scores of a level are brought
+    to that orientation by the direction flag (scores * (desc * 2 - 1));
+    the PEP call must see them after that step on every path - otherwise,
+    for a lower-is-better score, the best rows get PEPs near 1."""
+    from ..cfg import CFG
+    from ..core import walk_own
+    from ..defuse import walk_term
+    from ..proto import Calls, SELF
+    prog = ctx.prog
+    f = prog.func("mokapot.confidence.LinearConfidence._assign_confidence")
+    du = DefUse(prog, f)
+    T = Terms(du)
+    cfg = CFG(f.node)
+    cl = Calls(prog, f, du=du, T=T, cfg=cfg)
+    pep = cl.calls("mokapot.peps.peps_from_scores")
+    ctx.require(len(pep) == 1, f"{f.qual}: expected one peps_from_scores "
+                f"call, found {len(pep)}")
+    pt, pnode = pep[0]
+    pf = prog.func("mokapot.peps.peps_from_scores")
+    b = prog.bind(pf, pnode)
+    ctx.require(b.get(pf.params[0]) is not None,
+                f"{f.qual}: peps_from_scores called without scores")
+    st = T.of(b[pf.params[0]])
+    DESC = ("param", "desc")
+
+    def oriented(t):
+        return any(x == DESC for x in walk_term(t))
+
+    ok = oriented(st)
+    why = f"the PEP estimator receives {show(st, 80)}"
+    if not ok and st == ("attr", SELF, "scores"):
+        flips = [stn for (r, a, v, stn) in du.attr_stores
+                 if r == "self" and a == "scores" and oriented(T.of(v))]
+        pid = cfg.node_of(pnode).id
+        lp = cfg.enclosing(pnode, (ast.For, ast.While))
+        start = cfg.node_of(lp.body[0]).id if lp is not None \
+            else cfg.entry.id
+        fids = {cfg.node_of(x).id for x in flips}
+        # no later plain re-read of the column between the flip and the call
+        plain = {cfg.node_of(stn).id for (r, a, v, stn) in du.attr_stores
+                 if r == "self" and a == "scores"
+                 and not oriented(T.of(v))}
+        ok = bool(flips) and (start in fids or cfg.every_path_passes(
+            start, pid, fids))
+        if ok:
+            # every flip that reaches the call is not undone by a plain
+            # re-assignment on the way
+            for x in fids:
+                for p_ in plain:
+                    if p_ in cfg.reachable_normally(x, avoid={pid}) and \
+                            pid in cfg.reachable_normally(p_, avoid=fids):
+                        ok = False
+                        why = ("self.scores is re-read without the "
+                               "direction between the sign step and the "
+                               "PEP call")
+        if not flips:
+            why = ("self.scores never takes the direction flag into "
+                   "account before the PEP call")
+        elif not ok and why.startswith("the PEP estimator receives"):
+            why = ("the sign step scores * (desc * 2 - 1) does not precede "
+                   "the PEP call on every path")
+    ctx.check(ok, "C06c-pep-direction", f,
+              "PEPs are estimated from scores oriented higher = better "
+              "(the direction flag is applied before the PEP call)",
+              why + ": with a lower-is-better score the PEPs decrease as "
+              "the score gets worse", node=pnode)
+
+
+def _sqlite_binding(ctx):
+    """The result database gets the PEP of a row in its PEP column (and the
+    q-value, the score, the id in theirs): in every SQL statement of the
+    confidence writer each column is bound to the parameter of the same
+    role - by name (:name placeholders) or by position (? placeholders with
+    an ordered parameter list)."""
+    import re
+    from ..paths import return_cases
+    from ..tutil import text_parts
+    prog = ctx.prog
+    f = prog.func(
+        "mokapot.confidence_writer.ConfidenceSqliteWriter.get_query")
+    ps = [p_ for p_ in f.params if p_ != "self"]
+    ctx.require(len(ps) >= 3, f"{f.qual}: expected (level, qvalue_column, "
+                "pep_column)")
+    p_q, p_pep = ps[1], ps[2]
+
+    def role_of_param(t):
+        if t == ("param", p_q):
+            return "q-value"
+        if t == ("param", p_pep):
+            return "pep"
+        if t[0] == "const" and isinstance(t[1], str):
+            return {"score": "score"}.get(t[1], "id")
+        return "id"
+
+    def role_of_column(name):
+        u = name.upper()
+        if "FDR" in u or "QVAL" in u or "Q_VAL" in u:
+            return "q-value"
+        if "PEP" == u or "POSTERIOR" in u or u.endswith("_PEP"):
+            return "pep"
+        if "SCORE" in u:
+            return "score"
+        return "id"
+
+    n = 0
+    for case in return_cases(prog, f, phi_vars=False):
+        t = case.term
+        params = None
+        if t[0] == "tuple" and len(t[1]) == 2:
+            t, plist = t[1]
+            if plist[0] in ("list", "tuple") and not any(
+                    x[0] == "star" for x in plist[1]):
+                params = list(plist[1])
+        pieces = text_parts(t)
+        ctx.require(pieces and pieces != [t] or t[0] == "const",
+                    f"{f.qual}: the statement is not a string built from "
+                    f"pieces: {show(t, 80)}")
+        sql, holes = "", []
+        for x in pieces:
+            if x[0] == "const" and isinstance(x[1], str):
+                sql += x[1]
+            else:
+                sql += f"\x00{len(holes)}\x00"
+                holes.append(x)
+
+        def ph_role(tok, pos):
+            tok = tok.strip()
+            if tok == "?":
+                if params is None or pos[0] >= len(params):
+                    raise AnalysisError(
+                        f"{f.qual}: positional placeholder without an "
+                        "ordered parameter list")
+                r = role_of_param(params[pos[0]])
+                pos[0] += 1
+                return r
+            m = re.fullmatch(r":(?:\x00(\d+)\x00|(\w+))", tok)
+            if not m:
+                raise AnalysisError(f"{f.qual}: placeholder '{tok[:30]}' "
+                                    "not understood")
+            if m.group(1) is not None:
+                return role_of_param(holes[int(m.group(1))])
+            return role_of_param(("const", m.group(2)))
+
+        pairs = []
+        pos = [0]
+        up = re.match(r"\s*UPDATE\s+\S+\s+SET\s+(.*?)\s+WHERE\s+(.*?);?\s*$",
+                      sql, re.I | re.S)
+        ins = re.match(r"\s*INSERT\s+INTO\s+\S+?\s*\((.*?)\)\s*VALUES\s*"
+                       r"\((.*?)\)\s*;?\s*$", sql, re.I | re.S)
+        if up:
+            for part in up.group(1).split(",") + [up.group(2)]:
+                col, _eq, ph = part.partition("=")
+                pairs.append((col.strip(), ph_role(ph, pos)))
+        elif ins:
+            cols = [c.strip() for c in ins.group(1).split(",")]
+            phs = ins.group(2).split(",")
+            ctx.require(len(cols) == len(phs), f"{f.qual}: INSERT with "
+                        f"{len(cols)} columns and {len(phs)} values")
+            for c, ph in zip(cols, phs):
+                pairs.append((c, ph_role(ph, pos)))
+        else:
+            raise AnalysisError(f"{f.qual}: statement form not recognised: "
+                                f"{sql[:60]!r}")
+        n += 1
+        bad = []
+        for col, r in pairs:
+            cname = col
+            m = re.fullmatch(r"\x00(\d+)\x00", col)
+            crole = "id" if m else role_of_column(cname)
+            if crole != r:
+                bad.append((cname if not m else "<id column>", crole, r))
+        ctx.check(not bad, "C06f-sqlite-binding", f,
+                  "each column of the statement receives the value of its "
+                  f"own role ({len(pairs)} columns)",
+                  f"(column, its role, role of the bound value) = {bad}: "
+                  "the result database stores a value under another "
+                  "column's name", node=f.node,
+                  case=" & ".join(f"{show(c, 30)}={o}"
+                                  for c, o in case.conds))
+    ctx.floor("C06f-sqlite-statements", n, 2)
 
 
 def _check_entry(ctx, name, lam, kind):
